@@ -593,7 +593,21 @@ struct Exec
 				draw(G, intr);
 				intr_calls++;
 			}
+			const bool recheck = (k % 997 == 499);	// deep inside a long sequence: state that builds up over many calls shows here
+			std::mt19937 pre;
+			if(recheck)
+				pre = G;
 			std::vector<double> out = draw(G, s);
+			if(recheck)
+			{
+				ctx.probe(P_REPLAY_CHECKS);
+				std::vector<double> out2 = draw(pre, s);
+				bool same				 = out.size() == out2.size() && pre == G;
+				for(size_t q = 0; same && q < out.size(); q++)
+					same = same_bits(out[q], out2[q]);
+				if(!same)
+					ctx.violate("C18:replay-from-state:deep", fmt("draw number %zu of a long sequence: two executions from equal generator states differ in output or final state", k) + "; " + describe(s));
+			}
 			if(k < 64 || s.kind == 1)
 				check_support(s, out);
 			if(out.empty())
